@@ -1,0 +1,51 @@
+//go:build verif
+
+// Contracts for property C17 (filter patterns are validated by the documented glob syntax).
+// Every report of the validator is justified by the rule it names: the condition under which each
+// diagnostic may be emitted is stated per diagnostic (identified by the rule text it passes).
+// Ref-only diagnostics are emitted in ref mode only. Verified by govc.
+
+package actionlint
+
+//@ func (*globValidator).validateNext
+//@   props C17
+//@   anchor
+//@   at_call (*globValidator).unexpected: what == "special character ? (zero or one)" ==> char == '?' && !v.prec
+//@   at_call (*globValidator).unexpected: what == "special character + (one or more)" ==> char == '+' && !v.prec
+//@   at_call (*globValidator).unexpected: what == "character range in []" && why != "end of range is missing" ==> s > c && char == c
+//@   at_call (*globValidator).unexpected: what == "character match []" ==> chars == 1
+//@   at_call (*globValidator).unexpected: what == "end of character match []" ==> char == 0 - 1
+//@   at_call (*globValidator).unexpected: what == "" ==> char == 10 || char == 13
+//@   at_call (*globValidator).unexpected: what == "special character ? (zero or one)" || what == "special character + (one or more)" || what == "character range in []" || what == "character match []" || what == "end of character match []" || what == "" || what == "content of character match []"
+//@   at_call (*globValidator).invalidRefChar: v.isRef
+
+//@ func (*globValidator).validate
+//@   props C17
+//@   anchor
+//@   at_call (*globValidator).error: pat == ""
+//@   at_call (*globValidator).invalidRefChar: v.isRef && c == '/'
+//@   at_call (*globValidator).unexpected: char == '!'
+
+//@ func ValidateRefGlob
+//@   props C17
+//@   anchor
+//@   at_call validateGlob: pat == pat0 && isRef
+//@ func ValidatePathGlob
+//@   props C17
+//@   anchor
+//@   at_call validateGlob: pat == pat0 && !isRef
+//@ func validateGlob
+//@   props C17
+//@   anchor
+//@   at_call (*globValidator).validate: pat == pat0
+
+// termination: every step consumes at least one rune of the pattern (scanremaining = runes left)
+//@ func (*globValidator).validateNext
+//@   ensures [C17 C01] scanremaining(v.scan) <= old(scanremaining(v.scan)) && scanremaining(v.scan) >= 0
+//@   ensures [C17 C01] result ==> scanremaining(v.scan) < old(scanremaining(v.scan))
+//@   loop "for":
+//@     invariant [C17 C01] scanremaining(v.scan) <= old(scanremaining(v.scan))
+//@     decreases scanremaining(v.scan)
+//@ func (*globValidator).validate
+//@   loop "v.validateNext()":
+//@     decreases scanremaining(v.scan)
